@@ -57,15 +57,15 @@ def wire_design(run, devs, mode="clauses"):
     run.behaviour_replay(Q(run, "MCWire_export3.cfg", "MCWire_export4.cfg"), sample=None, mode=mode)
 
 
-RULE_WIRE = ("design model: WireMachine.tla, exhaustive over every history of <= 3 (quick) / 5 (thorough) public operations {Encode of each of 10 sample "
-             "messages (every frame type with and without body, a plain message), SetStale, Decode, Next(1|5|one frame), Reset, WriteRaw}; the named "
+RULE_WIRE = ("design model: WireMachine.tla, exhaustive over every history of <= 3 (quick) / 5 (thorough) public operations {Encode of each of 11 sample "
+             "messages (every frame type with and without body, a frame whose body is refused after it wrote something, a plain message), SetStale, Decode, Next(1|5|one frame), Reset, WriteRaw}; the named "
              "deviations must violate FramesRight. A: every exported behaviour (depth 3; thorough: all ~200,000 of depth 4) is executed on the real "
              "types; for C02 the result, unread bytes and object must equal the model's after every step, for the other properties the recorded "
              "events are judged by the trace specification with that property's clauses. ")
 
 
 def c04(run):
-    wire_design(run, [("MCWire_dev_abspatch.cfg", "FramesRight"), ("MCWire_dev_lentrailer.cfg", "FramesRight")])
+    wire_design(run, [("MCWire_dev_abspatch.cfg", "FramesRight"), ("MCWire_dev_lentrailer.cfg", "FramesRight"), ("MCWire_dev_scratch.cfg", "FramesRight")])
     frames = ["sse.SseBinary", "szse.SzseBinary", "risk.RcBinary", "sample.RootPacket"]
     run.trace("history", Q(run, 60, 600), types=frames)
     run.trace("encode-any", Q(run, 30, 300), types=frames, seed_off=100)
@@ -94,7 +94,7 @@ def c05(run):
 
 
 def c06(run):
-    wire_design(run, [("MCWire_dev_overunread.cfg", "FramesRight"), ("MCWire_dev_abspatch.cfg", "FramesRight")])
+    wire_design(run, [("MCWire_dev_overunread.cfg", "FramesRight"), ("MCWire_dev_abspatch.cfg", "FramesRight"), ("MCWire_dev_scratch.cfg", "FramesRight")])
     run.trace("history", Q(run, 3, 40))
     FR = ["sse.SseBinary", "szse.SzseBinary", "risk.RcBinary", "sample.RootPacket", "bse.BjseBinary"]
     run.trace("history", Q(run, 40, 400), types=FR, seed_off=100, small=True)
